@@ -12,11 +12,22 @@
 namespace vh {
 struct SnRec { int calls = 0; std::string fmt; bool varied = false; };
 inline SnRec &snrec() { static SnRec r; return r; }
+// The conversion libc is asked for is recorded in one canonical spelling: a width or precision passed as `*` plus an int
+// argument is written out in digits (a negative precision means "none"), so "%.*f", 3 and "%.3f" are the same request.
 inline int rec_snprintf(char *buf, size_t n, const char *fmt, ...) {
     SnRec &r = snrec();
-    if (r.calls && r.fmt != fmt) r.varied = true;
-    r.calls++; r.fmt = fmt;
     va_list ap; va_start(ap, fmt);
+    va_list ap2; va_copy(ap2, ap);
+    std::string canon;
+    for (const char *p = fmt; *p; ++p) {
+        if (*p != '*') { canon += *p; continue; }
+        int v = va_arg(ap2, int);
+        if (!canon.empty() && canon.back() == '.' && v < 0) canon.pop_back();
+        else canon += std::to_string(v);
+    }
+    va_end(ap2);
+    if (r.calls && r.fmt != canon) r.varied = true;
+    r.calls++; r.fmt = canon;
     int k = vsnprintf(buf, n, fmt, ap);
     va_end(ap);
     return k;
